@@ -173,12 +173,17 @@ def build(tier, seed):
         gen, hs = [], []
         tl = [(2, (1, 8), 0, 0), (2, (8, 1), 0, 0), (2, (4, 8), 1, 0), (2, (8, 8), 2, 0), (2, (1, 8), 0, 16), (2, (4, 4), 0, 8), (2, (1, 16), 0, 0), (2, (16, 8), 2, 0), (2, (16, 1), 4, 0),
               (3, (1, 8, 2), 0, 0), (3, (16, 8, 1), 2, 0), (3, (4, 16, 4), 2, 0), (3, (8, 1, 4), 1, 0), (2, (2, 4), 4, 0), (2, (8, 4), 0, 0), (2, (1, 2), 2, 0)]
-        for i, (kk, al, p_, ea) in enumerate(tl):
-            name = 'drv_s%d_%s_p%d_e%d' % (kk, '_'.join(map(str, al)), p_, ea)
-            gen.append('#[kani::proof] #[kani::unwind(%d)] fn %s() { struct_case::<%d, %d, %d>([%s]) }' % (14, name, kk, p_, ea, ', '.join(map(str, al))))
-            hs.append(H(name, path='driver_proofs::' + name, timeout=900, tier='quick' if i % 2 == 0 or p_ == 2 else 'thorough',
-                        desc='REAL CompInfo::codegen region on a struct of %d members (alignments %s, packing %d, member aligned %d): emitted fields + repr attributes laid out by Rust == C' % (kk, al, p_, ea),
-                        sample={'members': kk, 'aligns': list(al), 'pack': p_, 'member_aligned': ea}))
+        tl = [t + (0,) for t in tl]
+        # struct-level __attribute__((aligned(SA))): alone, and together with __attribute__((packed)) (finding F20)
+        tl += [(2, (1, 4), 0, 0, 16), (2, (4, 1), 0, 0, 8), (2, (8, 2), 0, 0, 32), (2, (1, 4), 1, 0, 8), (2, (1, 4), 1, 0, 2), (2, (2, 8), 1, 0, 4)]
+        f20 = 'F20' in load_known()
+        for i, (kk, al, p_, ea, sa_) in enumerate(tl):
+            name = 'drv_s%d_%s_p%d_e%d' % (kk, '_'.join(map(str, al)), p_, ea) + ('_sa%d' % sa_ if sa_ else '')
+            gen.append('#[kani::proof] #[kani::unwind(%d)] fn %s() { struct_case::<%d, %d, %d, %d>([%s]) }' % (14, name, kk, p_, ea, sa_, ', '.join(map(str, al))))
+            region20 = sa_ > 1 and p_ == 1
+            hs.append(H(name, path='driver_proofs::' + name, timeout=900, tier='quick' if i % 2 == 0 or p_ == 2 or sa_ else 'thorough', expect='finding:F20' if (region20 and f20) else 'pass',
+                        desc='REAL CompInfo::codegen region on a struct of %d members (alignments %s, packing %d, member aligned %d, struct aligned %d): emitted fields + repr attributes laid out by Rust == C%s' % (kk, al, p_, ea, sa_, ' (inverted: region of finding F20, must keep failing while it stands)' if (region20 and f20) else ''),
+                        sample={'members': kk, 'aligns': list(al), 'pack': p_, 'member_aligned': ea, 'struct_aligned': sa_}))
         for a_ in (1, 2, 4, 8, 16):
             gen.append('#[kani::proof] #[kani::unwind(14)] fn drv_opaque_a%d() { opaque_case::<%d>() }' % (a_, a_))
             hs.append(H('drv_opaque_a%d' % a_, path='driver_proofs::drv_opaque_a%d' % a_, timeout=900, tier='quick' if a_ in (1, 4, 16) else 'thorough',
